@@ -346,9 +346,9 @@ let infer_line l =
      | _ -> print_endline "gave up / out of fuel")
   end;
   let b x = if x then "1" else "0" in
-  (* verdict, then: plain, wf, final state stable, infer_checked (what the soundness theorem covers) *)
+  (* verdict, then: plain, wf, final state stable, infer_checked (the soundness theorem's hypothesis), semiplain *)
   print_endline ((match infer f (nat fuel) with IInferred -> "I" | INotInferred -> "N" | INoFuel -> "F")
-    ^ " " ^ b (plain f) ^ b (wf_fn f) ^ b (final_stable f (nat fuel)) ^ b (infer_checked f (nat fuel)))
+    ^ " " ^ b (plain f) ^ b (wf_fn f && wf_cfg f) ^ b (final_stable f (nat fuel)) ^ b (infer_checked f (nat fuel)) ^ b (semiplain f))
 
 let () =
   let mode = if Array.length Sys.argv > 1 then Sys.argv.(1) else "engine" in
